@@ -190,6 +190,8 @@ def drive(tier):
 def run(tier):
     rep = Report("C05", tier)
     rep.add_mc("MC_SignFlow", vlib.run_mc("MC_SignFlow", cfg="MC_SignFlow_quick" if tier == "quick" else "MC_SignFlow"))
+    import replay_signflow
+    replay_signflow.replay(rep, tier)            # specification -> code: TLC's behaviours performed on the implementation
     recs = drive(tier)
     mm = vlib.validate("Trace_ScriptVM", recs, timeout=7200)
     rep.apply_mismatches(recs, mm)
@@ -214,4 +216,8 @@ def run(tier):
 
 
 def replay(path):
+    d_ = json.load(open(path))
+    if d_["record"].get("op") == "flow.replay":
+        import replay_signflow
+        return replay_signflow.replay_record(d_)
     return vlib.replay_file("Trace_ScriptVM", path)
